@@ -22,7 +22,7 @@ from typing import Any, Dict, List, Optional, Tuple
 
 from .icommon import PathAbort, _Raise, _describe
 from .report import AnalysisError
-from .values import Const, NodeV, PyList, PyTuple, Sym, V
+from .values import Const, NodeV, PyList, PyTuple, RefV, Sym, V
 
 INF = 10 ** 6
 SIDE_EFFECT_EVENTS = ("store_attr", "mutate", "store_global", "store_foreign")
@@ -230,6 +230,9 @@ class WhileMixin:
         if not tnames or any(not isinstance(n, (ast.Name, ast.Tuple, ast.List, ast.Load, ast.Store)) for n in ast.walk(target)):
             return "unsupported pop target"
         rest = st.body[1:]
+        if "__yield__" in env:
+            # in a generator, `yield x` as a statement is `__yield__.append(x)`: the yielded sequence is one more result list
+            rest = _YieldToAppend().rewrite(rest)
         for n in ast.walk(ast.Module(body=rest, type_ignores=[])):
             if isinstance(n, (ast.Break, ast.Continue)) and not _inside_inner_loop(rest, n):
                 if isinstance(n, ast.Break):
@@ -401,6 +404,24 @@ class WhileMixin:
         return out
 
 
+class _YieldToAppend(ast.NodeTransformer):
+    def rewrite(self, stmts):
+        import copy
+        return [ast.fix_missing_locations(self.visit(copy.deepcopy(s))) for s in stmts]
+
+    def visit_Expr(self, node):
+        v = node.value
+        if isinstance(v, ast.Yield) and v.value is not None and not any(isinstance(x, (ast.Yield, ast.YieldFrom)) for x in ast.walk(v.value)):
+            call = ast.Call(func=ast.Attribute(value=ast.Name(id="__yield__", ctx=ast.Load()), attr="append", ctx=ast.Load()), args=[v.value], keywords=[])
+            return ast.copy_location(ast.Expr(value=ast.copy_location(call, v)), node)
+        return node
+
+    def visit_FunctionDef(self, node):
+        return node
+
+    visit_Lambda = visit_AsyncFunctionDef = visit_FunctionDef
+
+
 class _ReprDict(dict):
     def get(self, key, default=None):  # key = (class key, list name)
         return dict.get(self, (repr(key[0]), key[1]), default)
@@ -427,6 +448,8 @@ def _class_key(v: V):
         return ("tuple", tuple(_class_key(x) for x in v.items))
     if isinstance(v, Sym) and v.hint == "str":
         return ("str",)
+    if isinstance(v, RefV):
+        return ("ref", v.qual)
     return ("opaque",)
 
 
@@ -442,13 +465,15 @@ def _representative(key, wname: str) -> V:
         return PyTuple([_representative(k, wname) for k in key[1]])
     if tag == "str":
         return Sym("wlitem", wname, hint="str")
+    if tag == "ref":
+        return RefV(key[1])
     return Sym("wlitem", wname)
 
 
 def _derived_from(v: V, item: V) -> bool:
     """Is v (or, for tuples, one of its components, the others being constants) obtained from the popped item by attribute access?"""
     if isinstance(v, PyTuple):
-        parts = [x for x in v.items if not isinstance(x, Const)]
+        parts = [x for x in v.items if not isinstance(x, (Const, RefV))]
         return bool(parts) and all(_derived_from(x, item) for x in parts)
     roots: List[V] = []
 
